@@ -264,6 +264,9 @@ class AccfgGen:
                 st["lvals"] = [self.r.choice(self.p["launch_pool"]) for _ in range(self.p["n_launch"][0])]
             body.append(st)
         ast = {"n_acc": self.p["n_acc"], "n_fields": self.p["n_fields"][: self.p["n_acc"]], "body": body, "consts": self.p.get("consts", 0)}
+        if self.p.get("multiblock") and self.r.random() < self.p["multiblock"]:
+            # unstructured control flow behind the body: entry -> (b0 ? bb1 : bb2); bb1 -> bb2; bb2 -> return
+            ast["blocks"] = [self.stmts(self.r.randint(1, 2), list(scope), 0, False), self.stmts(self.r.randint(1, 3), list(scope), 0, False)]
         if self.p.get("memory"):
             ast["memory"] = True
         return ast
@@ -524,9 +527,16 @@ def emit(ast, acc_names=None, vty="i32", decls=()) -> str:
     for nm, v in sorted(ast.get("extra_consts", {}).items()):
         e(2, f"{nm} = arith.constant {v} : {vty}")
     stmts(2, ast["body"])
+    if ast.get("blocks"):
+        e(2, "cf.cond_br %b0, ^bb1, ^bb2")
+        e(1, "^bb1:")
+        stmts(2, ast["blocks"][0])
+        e(2, "cf.br ^bb2")
+        e(1, "^bb2:")
+        stmts(2, ast["blocks"][1])
     e(2, "func.return")
     e(1, "}")
-    for a in sorted({s_["acc"] for s_ in _walk_stmts(ast["body"]) if s_["k"] == "call" and s_.get("callee") == "local"}):
+    for a in sorted({s_["acc"] for s_ in _walk_stmts(ast["body"] + [x for b in ast.get("blocks", []) for x in b]) if s_["k"] == "call" and s_.get("callee") == "local"}):
         fields = names[a]["fields"]
         an = names[a]["name"]
         e(1, f'func.func @loc{a}({", ".join(f"%q{j} : {vty}" for j in range(len(fields)))}) {{')
@@ -615,6 +625,11 @@ def shrink_body(body):
 def shrink_ast(ast):
     for nb in shrink_body(ast["body"]):
         yield dict(ast, body=nb)
+    if ast.get("blocks"):
+        yield {k: v for k, v in ast.items() if k != "blocks"}
+        for j in (0, 1):
+            for nb in shrink_body(ast["blocks"][j]):
+                yield dict(ast, blocks=[nb if i == j else b for i, b in enumerate(ast["blocks"])])
 
 
 def shrink_env(env):
